@@ -365,9 +365,60 @@ class Body:
                         yield (k.get("res") or k["fn"]), k.get("loc", False), bi
 
     # ---- provenance terms
+    def sname(self, o, depth=6):
+        """structural rendering: user variable names are looked through (a named local that is assigned once renders as
+        its defining expression)."""
+        old = self.names
+        self.names = {l: n for l, n in old.items() if len(self.defs.get(l, [])) != 1}
+        try:
+            return self.oname(o, depth)
+        finally:
+            self.names = old
+
     def pname(self, p, depth=4, seen=None):
         """render a place."""
+        # flatten `tmp = copy P; ... (*tmp).f` and `tmp = &P; (*tmp).f` into one place, so that a captured variable that
+        # is read through a temporary still matches its debug entry
+        for _ in range(6):
+            l = p["l"]
+            if l in self.names or l <= self.argc:
+                break
+            d = self.single_def(l)
+            if d is None or d[2] != "rv":
+                break
+            rv = d[3]
+            if rv["k"] == "use" and ("c" in rv["o"] or "m" in rv["o"]):
+                q = rv["o"].get("c") or rv["o"].get("m")
+                p = {"l": q["l"], "p": list(q["p"]) + list(p["p"])}
+            elif rv["k"] == "ref" and p["p"] and p["p"][0] == "*":
+                q = rv["p"]
+                p = {"l": q["l"], "p": list(q["p"]) + list(p["p"][1:])}
+            else:
+                break
+        # (tmp.0) of a checked op renders as the op itself
+        if p["p"] and isinstance(p["p"][0], dict) and p["p"][0].get("f") == 0 and p["l"] not in self.names:
+            d = self.single_def(p["l"])
+            if d and d[2] == "rv" and d[3]["k"] == "bin" and d[3]["op"].endswith("WithOverflow"):
+                return self._proj(self.rvname(d[3], depth, seen), p["p"][1:], depth, seen)
+        # captured variables of a closure carry their own debug names
+        if p["l"] == 1 and self.kind == "Closure" and p["p"]:
+            for nm, up in self.upvars:
+                n = len(up["p"])
+                if up["l"] == p["l"] and p["p"][:n] == up["p"]:
+                    am = getattr(self, "_alpha", None)
+                    if am is not None:
+                        key = ("up", nm)
+                        if key not in am:
+                            am[key] = "$%d" % (len(am) + 1)
+                        base = am[key]
+                    else:
+                        base = nm
+                    return self._proj(base, p["p"][n:], depth, seen)
         base = self.lname(p["l"], depth, seen)
+        return self._proj(base, p["p"], depth, seen)
+
+    def _proj(self, base, proj, depth, seen):
+        p = {"p": proj}
         for e in p["p"]:
             if e == "*":
                 base = "*" + base if not base.startswith("&") else base[1:]
